@@ -158,18 +158,38 @@ structure RawOpts where
   present : Bool          -- the --insoptions/--diroptions option was passed at all
   empty : Bool            -- its value was the empty string
   mode : Option Nat       -- value of -m/--mode when given
+  owner : Option Nat      -- value of -o/--owner when given (uid)
+  group : Option Nat      -- value of -g/--group when given (gid)
   deriving Repr, DecidableEq
 
-/-- `self.insoptions`/`self.diroptions` → the mode handed to `_set_attributes`
-(`none`: empty namespace, no chmod; no `-m` among other options: the parser default 0o755) -/
-def effMode (dflt : Option Nat) (raw : RawOpts) : Option Nat :=
-  if raw.present then (if raw.empty then none else some (raw.mode.getD 0o755))
+/-- what `_set_attributes` is asked to establish: `chmod(mode)`, and `lchown(owner, group)` where given
+(`-1` = leave alone) -/
+structure Attr where
+  mode : Nat
+  owner : Option Nat
+  group : Option Nat
+  deriving Repr, DecidableEq
+
+/-- mode bits and ownership of an image entry -/
+structure Perm where
+  mode : Nat
+  uid : Nat
+  gid : Nat
+  deriving Repr, DecidableEq
+
+/-- `_set_attributes(opts, path)` on an entry that has `p`: lchown where asked, then chmod -/
+def Attr.over (a : Attr) (p : Perm) : Perm := ⟨a.mode, a.owner.getD p.uid, a.group.getD p.gid⟩
+
+/-- `self.insoptions`/`self.diroptions` → what is handed to `_set_attributes`
+(`none`: empty namespace, nothing done; no `-m` among other options: the parser default 0o755) -/
+def effMode (dflt : Option Attr) (raw : RawOpts) : Option Attr :=
+  if raw.present then (if raw.empty then none else some ⟨raw.mode.getD 0o755, raw.owner, raw.group⟩)
   else dflt
 
 structure Ctx where
   dest : Str
-  insMode : Option Nat
-  dirMode : Option Nat
+  insMode : Option Attr
+  dirMode : Option Attr
   deriving Repr
 
 inductive Content
@@ -178,8 +198,8 @@ inductive Content
   deriving DecidableEq, Repr
 
 inductive Op
-  | mkdirs (p : Path) (mode : Option Nat)            -- os.makedirs(p, exist_ok=True); chmod leaf
-  | copy (c : Content) (p : Path) (mode : Option Nat) -- unlink; shutil.copyfile(follow_symlinks=False); chmod
+  | mkdirs (p : Path) (mode : Option Attr)           -- os.makedirs(p, exist_ok=True); _set_attributes on the leaf
+  | copy (c : Content) (p : Path) (mode : Option Attr) -- unlink; shutil.copyfile(follow_symlinks=False); _set_attributes
   | symlink (text : Str) (p : Path)                   -- os.symlink (fails when p exists)
   | relink (text : Str) (p : Path)                    -- dosym: symlink, overwriting a non-directory
   | hardlink (src : Path) (p : Path)                  -- dohard: os.link, overwriting a non-directory
@@ -195,9 +215,9 @@ def prefixed (c : Ctx) (d : Str) : Path := toPath c.dest ++ toPath d
 /-! ## the image -/
 
 inductive Node
-  | dir (mode : Nat)
-  | file (mode : Nat) (id : Nat)      -- `id` identifies the content (0 = empty file)
-  | link (text : Str)
+  | dir (mode : Perm)
+  | file (mode : Perm) (id : Nat)     -- `id` identifies the content (0 = empty file)
+  | link (text : Str) (uid gid : Nat)
   deriving DecidableEq, Repr
 
 abbrev Fs := Path → Option Node
@@ -446,12 +466,13 @@ def dohardPlan (c : Ctx) (source target : Str) : Except Rej (List Op) :=
 
 /-! ## the interpreter -/
 
-def isLinkAt (fs : Fs) (p : Path) : Bool := match fs p with | some (.link _) => true | _ => false
+def isLinkAt (fs : Fs) (p : Path) : Bool := match fs p with | some (.link _ _ _) => true | _ => false
 def isFileAt (fs : Fs) (p : Path) : Bool := match fs p with | some (.file _ _) => true | _ => false
 
+/-- what a new entry gets from the process: mode from the umask, owner from the effective ids -/
 structure Umask where
-  dirMode : Nat      -- 0o777 & ~umask
-  fileMode : Nat     -- 0o666 & ~umask
+  dirMode : Perm     -- 0o777 & ~umask, euid, egid
+  fileMode : Perm    -- 0o666 & ~umask, euid, egid
   deriving Repr
 
 /-- `os.makedirs(exist_ok=True)` below an existing prefix `pre` -/
@@ -462,7 +483,7 @@ def mkdirsAux (u : Umask) (fs : Fs) (pre : Path) : List Str → Except Rej Fs
     match fs p with
     | none => mkdirsAux u (fs.set p (.dir u.dirMode)) p rest
     | some (.dir _) => mkdirsAux u fs p rest
-    | some (.link _) => .error .unmodelled      -- a symlink on the way is followed by the kernel
+    | some (.link _ _ _) => .error .unmodelled  -- a symlink on the way is followed by the kernel
     | some (.file _ _) => .error .oserror
 
 /-- a new non-directory entry at `p`: the parent must be a directory, a directory at `p` is in the way -/
@@ -481,24 +502,30 @@ def applyOpRaw (u : Umask) (fs : Fs) : Op → Except Rej Fs
   | .mkdirs p mode => do
     let fs' ← mkdirsAux u fs [] p
     match mode with
-    | some m => if p = [] then pure fs' else pure (fs'.set p (.dir m))
+    | some a =>
+      match fs' p with
+      | some (.dir q) => pure (fs'.set p (.dir (a.over q)))
+      | _ => pure fs'
     | none => pure fs'
-  | .copy (.file id) p mode => placeLeaf fs p (.file (mode.getD u.fileMode) id)
-  | .copy (.link text) p _ => placeLeaf fs p (.link text)
+  | .copy (.file id) p mode => placeLeaf fs p (.file ((mode.map (·.over u.fileMode)).getD u.fileMode) id)
+  | .copy (.link text) p mode =>
+    -- a symbolic link is chown'ed (lchown) but never chmod'ed
+    let q := (mode.map (·.over u.fileMode)).getD u.fileMode
+    placeLeaf fs p (.link text q.uid q.gid)
   | .symlink text p =>
     match fs p with
     | some _ => .error .oserror
-    | none => placeLeaf fs p (.link text)
-  | .relink text p => placeLeaf fs p (.link text)
+    | none => placeLeaf fs p (.link text u.fileMode.uid u.fileMode.gid)
+  | .relink text p => placeLeaf fs p (.link text u.fileMode.uid u.fileMode.gid)
   | .hardlink src p =>
     match fs src with
     | some (.file m id) => if src = p then .error .oserror else placeLeaf fs p (.file m id)
-    | some (.link _) => .error .unmodelled
+    | some (.link _ _ _) => .error .unmodelled
     | _ => .error .oserror
   | .touch p =>
     match fs p with
     | some (.file m _) => placeLeaf fs p (.file m 0)
-    | some (.link _) => .error .unmodelled
+    | some (.link _ _ _) => .error .unmodelled
     | _ => placeLeaf fs p (.file u.fileMode 0)
 
 def Op.dotted : Op → Bool
@@ -543,5 +570,31 @@ def execute (u : Umask) (fs : Fs) (plan : Except Rej (List Op)) : Except Rej Fs 
   match plan with
   | .ok ops => runOps u fs ops
   | .error e => .error e
+
+/-- one IPC request of any of the helpers -/
+inductive Request
+  | install (h : Helper) (c : Ctx) (ts : List Target)
+  | dodir (c : Ctx) (ds : List Str)
+  | keepdir (c : Ctx) (category pn slot : Str) (ds : List Str)
+  | dosym (c : Ctx) (relAllowed relative : Bool) (source target : Str)
+  | dohard (c : Ctx) (source target : Str)
+
+/-- what the helper asks of the file system for this request; `fs` is the image at the time of the request
+(only `dosym` looks at it, for its "link name is a directory" test).  Nothing else is an input: the helper
+objects carry no state from one request to the next. -/
+def Request.plan (fs : Fs) : Request → Except Rej (List Op)
+  | .install h c ts => installPlan h c ts
+  | .dodir c ds => dodirPlan c ds
+  | .keepdir c category pn slot ds => keepdirPlan c category pn slot ds
+  | .dosym c relAllowed relative source target => dosymPlan c fs relAllowed relative source target
+  | .dohard c source target => dohardPlan c source target
+
+/-- a sequence of requests served by one helper table on one image; stops at the first rejection -/
+def runRequests (u : Umask) (fs : Fs) : List Request → Except Rej Fs
+  | [] => .ok fs
+  | r :: rest =>
+    match execute u fs (r.plan fs) with
+    | .ok fs' => runRequests u fs' rest
+    | .error e => .error e
 
 end Pkgcore.C33
